@@ -55,7 +55,9 @@ def shapes_suite(tier, seed):
 
 
 def run(tier, seed, rep, replay=None):
-    netprops.standard_run(ID, tier, seed, rep, replay, ALGOS, nontrivial, extra_cases=shapes_suite, rule=
+    # "owns address slot i*cols+j": the address-map clause of the property is the certified C01 comparison (declared
+    # range of element k -> rule with these bounds whose destination is that element's interface), evaluated here too
+    netprops.standard_run(ID, tier, seed, rep, replay, ALGOS, nontrivial, extra_cases=shapes_suite, extra_checks=("C01",), rule=
                           "all routing families + shapes suite (single, [1], [n], [1,n], [m,1], [m,n], [1,1]; manager / "
                           "subordinate / both; narrow-only, wide-only, both, chosen independently for the manager and the subordinate side; distinct id widths; axi protocols with a "
                           "type tag; default and explicit type_prefix); non-trivial = has an array endpoint or is narrow-wide")
